@@ -39,6 +39,9 @@ CLAIMS = {
  "C12": ("static analysis: abstract interpretation over kinds x shapes (A), loop lint (D2), points-to no-write analysis of the simplifier configuration (B1)",
          "Decided statically: no certain fault for any kind x degenerate shape through every simplify entry (A); wrappers visit every member (D2); no simplify method writes its receiver, so a simplifier can be reused (B1). NOT decided: error bound, idempotence, minimum counts, monotonicity.",
          "DESIGN.md §4 C12"),
+ "C13": ("static analysis: abstract interpretation of the tile methods with bit-level symbolic integers (each bit a constant, bit i of an unknown input, its negation, or unknown; shifts, masks, or/xor, conversions, +1 on even values, LeadingZeros exact) plus linear symbolic forms, judged against the quadtree identities (A-comp); outward-rounded float interval analysis of the point-to-tile mapping",
+         "Decided statically for every X and Y at each zoom (quick: 7 zooms, thorough: 0..30): Quadkey interleaves the bits of X and Y and FromQuadkey inverts it; Children are the four distinct quadrants 2X+dx, 2Y+dy one zoom deeper, Parent and Siblings undo that; Valid is X,Y < 2^zoom; Contains is exactly the ancestor-or-self relation; SharedParent is the deepest common ancestor (first differing level of X or Y); Range and ChildrenInZoomRange are exactly the descendants; At returns X,Y < 2^zoom for every longitude in [-180,180] and every latitude (interval analysis). NOT decided: that At's tile contains the point, Center/Bound round trips, exact sharing of edge coordinates (float identities through the mercator formulas); zooms above 30.",
+         "DESIGN.md §4 C13"),
  "C14": ("static analysis: run-once/member/segment loop lints (D1-D3), no early exit from accumulating loops (D5), abstract interpretation over kinds x shapes (A)",
          "Decided statically: every member contributes and the line walk visits every segment (D1-D3); no certain fault for any kind/shape (A). NOT decided: DDA, scan fill, merge arithmetic.",
          "DESIGN.md §4 C14"),
@@ -81,7 +84,6 @@ EXTRA = {  # rules added after seeded changes were missed (DESIGN.md §11/§12);
 }
 
 NOT_APPLICABLE = [
- ("C13", "bit-trick identities over a 2^64 tile space and float-to-tile mapping at domain edges; needs bit-vector solving or execution, outside static analysis (DESIGN.md §5)"),
 ]
 
 PENDING = {  # properties whose checks are still being built; listed as not applicable until registered
